@@ -345,7 +345,7 @@ def check_values(prop, tier, seed, tools):
     rep = Report(prop, tier, seed)
     proofs_ok = proof_stage(rep, prop)
     rng = random.Random(seed)
-    per = 90 if tier == "quick" else 1200
+    per = 90 * common.scale(rep) if tier == "quick" else 1200
     cases = load_corpus(prop) + gen_cases(rng, tools, per, tier, mixed=True)
     pairs, fails = [], 0
     std_pairs = []
@@ -413,7 +413,7 @@ def check_C05(tier, seed):
     rep = Report("C05", tier, seed)
     proofs_ok = proof_stage(rep, "C05")
     rng = random.Random(seed)
-    per = 40 if tier == "quick" else 500
+    per = 40 * common.scale(rep) if tier == "quick" else 500
     tools = [t for t in ITER_TOOLS] + ["all", "any"]
     cases = load_corpus("C05") + gen_cases(rng, tools, per, tier)
     pairs, fails = [], 0
@@ -462,7 +462,7 @@ def check_faults(prop, tier, seed):
     rep = Report(prop, tier, seed)
     proofs_ok = proof_stage(rep, prop)
     rng = random.Random(seed)
-    per = {"C04": 18, "C06": 18, "C18": 16}[prop] if tier == "quick" else 150
+    per = {"C04": 18, "C06": 18, "C18": 16}[prop] * min(2, common.scale(rep)) if tier == "quick" else 150
     tools = ITER_TOOLS + AGG_TOOLS
     cases = load_corpus(prop) + gen_cases(rng, tools, per, tier)
     pairs, fails = [], 0
@@ -503,6 +503,15 @@ def check_faults(prop, tier, seed):
             rep.count((c.name, repr(c.params), repr(c.srcs), plan), True, sample=cp.describe())
             if why is None:
                 why = fault_oracle(prop, c, cp, rp, uk)
+            if why is None and prop in ("C04", "C06") and nplans % 3 == 0:
+                # what a source's aclose() returns must not matter (it is not an __aexit__)
+                G.Src.close_result = True
+                try:
+                    rt = run_impl(cp)
+                finally:
+                    G.Src.close_result = None
+                if rt["outcome"][:2] != rp["outcome"][:2] or not same_log(rt["log"], rp["log"]):
+                    why = ("close-result-matters", "with sources whose aclose() returns a truthy value the run differs: %r vs %r" % (rt["outcome"][:2], rp["outcome"][:2]))
             if why:
                 fails += 1
                 rep.violation(sig(c, why[0]), {"case": encode_case(cp), "why": why[1], "log": repr(rp["log"]), "states": rp["states"]})
